@@ -165,10 +165,10 @@ def check_space(chk, drv, sp, stats, ndata):
             fail('C09:equal-weights', 'interpolation points of a uniform periodic space are not unisolvent')
         for i in range(n if kappa is not None else 0):
             d = abs(wf[i] - tgt)
-            stats['equal'] = max(stats.get('equal', 0.0), float(d / (EPS * F(kappa) * tgt)))
             if d > F(CN) * EPS * F(kappa) * tgt + F(kappa) * uneven:
                 fail('C09:equal-weights', 'weights of a uniform periodic space are not all equal to L/n', float(tgt), float(w[i]))
                 break
+            stats['equal'] = max(stats.get('equal', 0.0), float(d / (EPS * F(kappa) * tgt)))
         chk.count('uniform periodic: equal weights checked')
     # weights · data = exact integral of the real interpolant
     datas = []
